@@ -263,6 +263,27 @@ func ruleR14b(c *Ctx) {
 				}
 			}
 		}
+		// the preview may be built by a helper called on the DryRun edge (`return e.dryRunLog(builder), …`)
+		var viaHelper *ssa.Call
+		if dryChain == nil && realCall != nil {
+			for _, b := range fn.Blocks {
+				for _, ins := range b.Instrs {
+					call, ok := ins.(*ssa.Call)
+					if !ok {
+						continue
+					}
+					h := staticCallee(call)
+					if h == nil || fnPkgPath(h) != pkgCommand || len(h.Blocks) == 0 || !guardedByFieldFact(c, fn, call, m.fDryRun, true) {
+						continue
+					}
+					allCalls(h, func(ci ssa.CallInstruction) {
+						if hc, ok := ci.(*ssa.Call); ok && isCallTo(hc, m.chainLog) {
+							dryChain, viaHelper = hc, call
+						}
+					})
+				}
+			}
+		}
 		if dryChain == nil || realCall == nil {
 			continue
 		}
@@ -272,6 +293,14 @@ func ruleR14b(c *Ctx) {
 		var builder ssa.Value
 		if bc, ok := dryChain.Call.Args[0].(*ssa.Call); ok && !bc.Call.IsInvoke() {
 			builder = bc.Call.Value
+			if viaHelper != nil {
+				// inside the helper the builder is a parameter: the value the function passed for it
+				if p, ok := stripLoadOfParamCell(builder).(*ssa.Parameter); ok {
+					if i := paramIndex(p); i >= 0 && i < len(viaHelper.Call.Args) {
+						builder = viaHelper.Call.Args[i]
+					}
+				}
+			}
 		}
 		same := false
 		if builder != nil {
